@@ -21,8 +21,9 @@ RULE = ('random images 9x9..45x45 (gaussian source + noise, constant, non-negati
         'pixels, units), centres inside / within 2 px of the edge / outside the image, 2-12 non-uniform radii '
         '(RadialProfile edges optionally starting at 0), optional partial masks and error maps (optionally with '
         'non-finite entries), methods exact / center / subpixel(1..7); every case builds a RadialProfile or a '
-        'CurveOfGrowth, reads its arrays, and runs a random history of 4-14 reads / normalize / unnormalize '
-        'steps; non-trivial = at least 2 radii whose apertures overlap unmasked pixels with a non-zero sum; '
+        'CurveOfGrowth, reads its arrays, and runs a random history of 4-30 steps: first reads, normalize / '
+        'unnormalize, and calls of the derived quantities (calc_ee_at_radius / calc_radius_at_ee at nodes and in '
+        'between, gaussian_fit/profile/fwhm, apertures, data_profile) placed before and after the mutators; non-trivial = at least 2 radii whose apertures overlap unmasked pixels with a non-zero sum; '
         'distinct by digest of (data, error, mask, centre, radii, method, history)')
 CLASSES = ['rp_basic', 'cog_basic', 'constant', 'nonneg', 'edge', 'offedge', 'masked', 'nonfinite', 'errors',
            'methods', 'units', 'neg_rings', 'history_rp', 'history_cog', 'ee_roundtrip']
@@ -53,7 +54,7 @@ RT_HIST = 1e-12     # normalise / unnormalise rounding
 def plan(tier):
     if tier == 'thorough':
         return dict(shards=16, cases=30000, timeout=2400, budget_s=700)
-    return dict(shards=6, cases=1500, timeout=600, budget_s=70)
+    return dict(shards=6, cases=1200, timeout=600, budget_s=70)
 
 
 def selftest():
@@ -320,7 +321,16 @@ def run_case(case):
     if np.isinf(_vals(P0)).any():
         case.note('history_skipped_infinite_profile_value')
     else:
-        _run_history(case, prof, fresh, hist, is_rp_hist, mech_h)
+        def make():
+            d, e, m_ = inputs()
+            return _make(g, d, e, m_)
+
+        gauss_ok = False
+        if is_rp and any(h.startswith('read:gaussian') for h in hist):
+            pv = _vals(P0)
+            gauss_ok = bool(g['kind'] in ('source', 'clean_source', 'nonneg_source') and g['place'] == 'inside'
+                            and int(np.isfinite(pv).sum()) >= 4)
+        _run_history(case, prof, fresh, hist, is_rp_hist, mech_h, make, gauss_ok=gauss_ok, is_cog=not is_rp)
 
     # ---- definitional oracles on the fresh object (unnormalised by construction)
     p, pe, area, radius = _vals(P0), _vals(E0), np.asarray(fresh.area), np.asarray(fresh.radius)
@@ -391,23 +401,47 @@ def run_case(case):
 
 # ----------------------------------------------------------------------
 def _history(rng, cls, is_rp):
-    reads = ['profile', 'profile_error', 'area', 'radius']
+    """Random history: first reads, mutators (normalize / unnormalize) and -- as steps of the history -- calls of
+    every derived quantity that an implementation could cache: the two encircled-energy interpolators of a
+    CurveOfGrowth (at the sampled radii / node values and in between), gaussian_fit / gaussian_profile /
+    gaussian_fwhm of a RadialProfile, area, data_profile, apertures.  Interpolator calls are additionally forced
+    before and after mutators so that 'call -> change of normalisation -> call' sequences are frequent."""
+    reads = ['profile', 'profile_error', 'area', 'radius', 'apertures']
+    derived = []
     if is_rp:
         reads += ['data_profile', 'data_profile', 'data_radius']
-    n = int(rng.integers(6, 15)) if cls.startswith('history') else int(rng.integers(3, 8))
+        derived = ['read:gaussian_fit', 'read:gaussian_profile', 'read:gaussian_fwhm']
+    else:
+        derived = ['interp:ee_nodes', 'interp:ee_between', 'interp:rad_nodes', 'interp:rad_between',
+                   'interp:roundtrip']
+    long = cls.startswith('history') or cls == 'ee_roundtrip'
+    n = int(rng.integers(6, 15)) if long else int(rng.integers(3, 8))
+    pd = 0.3 if not is_rp else (0.12 if long else 0.04)        # gaussian fits cost ~10 ms each
     ops = []
     for _ in range(n):
         r = rng.random()
-        if r < 0.45:
+        if r < pd:
+            ops.append(str(rng.choice(derived)))
+        elif r < 0.5:
             ops.append('read:' + str(rng.choice(reads)))
-        elif r < 0.75:
+        elif r < 0.78:
             ops.append('normalize:' + str(rng.choice(['max', 'sum'])))
         else:
             ops.append('unnormalize')
+    if not is_rp:
+        out = []
+        for op in ops:
+            mut = op.startswith('normalize') or op == 'unnormalize'
+            if mut and rng.random() < 0.6:
+                out.append(str(rng.choice(derived)))
+            out.append(op)
+            if mut and rng.random() < 0.7:
+                out.append(str(rng.choice(derived)))
+        ops = out
     return ops
 
 
-def _run_history(case, prof, fresh, hist, is_rp, mech):
+def _run_history(case, prof, fresh, hist, is_rp, mech, make, gauss_ok=False, is_cog=False):
     P0, E0 = _vals(fresh.profile), _vals(fresh.profile_error)
     D0 = _vals(fresh.data_profile) if is_rp else None
     DR0 = np.asarray(fresh.data_radius) if is_rp else None
@@ -417,6 +451,27 @@ def _run_history(case, prof, fresh, hist, is_rp, mech):
     normalized = False          # a normalize() has been applied since the last unnormalize()
     first_read = {}             # array name -> state at its first read
     model_ok = True
+    mutators = []               # the mutator calls applied so far (replayed on replicas)
+    epoch = 0                   # incremented by every mutator call
+    seen = {}                   # derived quantity -> epoch of its first call on the live object
+    frozen = {}                 # gaussian quantities at their first read (documented as frozen afterwards)
+    radii0 = np.asarray(fresh.radii, float)
+
+    def replica():
+        """a brand-new object brought to the same normalisation state by replaying the mutators only."""
+        obj = make()
+        for mu in mutators:
+            if mu[0] == 'normalize':
+                obj.normalize(method=mu[1])
+            else:
+                obj.unnormalize()
+        case.note('replicas_built')
+        return obj
+
+    def stale(name):
+        """structural flag: the quantity was already called on this instance in an earlier normalisation epoch."""
+        first = seen.setdefault(name, epoch)
+        return bool(first < epoch)
 
     def state():
         return 'while_normalized' if normalized else 'unnormalized'
@@ -439,6 +494,15 @@ def _run_history(case, prof, fresh, hist, is_rp, mech):
     for op in hist:
         if op.startswith('read:'):
             name = op[5:]
+            if name.startswith('gaussian'):
+                if gauss_ok:
+                    _gaussian_step(case, prof, name, replica, frozen, stale('gaussian'), mech)
+                else:
+                    case.note('gaussian_step_skipped_fit_not_applicable')
+                continue
+            if name == 'apertures':
+                _apertures_step(case, prof, radii0, is_cog, dict(mech, array='apertures', stale_opportunity=stale(name)))
+                continue
             val = getattr(prof, name)
             if name in arrays:
                 first_read.setdefault(name, state())
@@ -459,14 +523,32 @@ def _run_history(case, prof, fresh, hist, is_rp, mech):
                 exp = {'profile': P0, 'profile_error': E0}[name] / N
                 case.close(_vals(val), exp, 'normalized_value_vs_model', rtol=RT_HIST,
                            mech=dict(mech, array=name))
-            else:
-                case.note('data_profile_read_while_normalized_not_judged')
+            elif name == 'data_profile':
+                # first read or cached: the same value as on a fresh object brought to this normalisation state
+                st = stale('data_profile')
+                if model_ok:
+                    case.close(_vals(val), D0 / N, 'normalized_value_vs_model', rtol=RT_HIST,
+                               mech=dict(mech, array=name, stale_opportunity=st))
+                if case.rng.random() < 0.5:
+                    case.close(_vals(val), _vals(replica().data_profile), 'derived_vs_fresh_in_same_state',
+                               rtol=RT_HIST, mech=dict(mech, array=name, stale_opportunity=st))
+        elif op.startswith('interp:'):
+            if not is_cog:
+                continue
+            st = stale('interp')
+            case.note('interpolator_steps')
+            if st:
+                case.note('interpolator_steps_after_normalisation_change')
+            _interp_step(case, prof, op[7:], replica, dict(mech, stale_opportunity=st),
+                         (P0 / N) if (model_ok and np.isfinite(N)) else None)
         elif op.startswith('normalize:'):
             meth = op[10:]
             with np.errstate(all='ignore'):
                 cur = P0 / N
                 norm = (np.nanmax(cur) if meth == 'max' else np.nansum(cur)) if cur.size else np.nan
             prof.normalize(method=meth)
+            mutators.append(('normalize', meth))
+            epoch += 1
             first_read.setdefault('profile', state())
             first_read.setdefault('profile_error', state())
             nnorm += 1
@@ -490,6 +572,8 @@ def _run_history(case, prof, fresh, hist, is_rp, mech):
                            mech=dict(mech, op=op))
         else:
             prof.unnormalize()
+            mutators.append(('unnormalize',))
+            epoch += 1
             first_read.setdefault('profile', state())
             first_read.setdefault('profile_error', state())
             normalized = False
@@ -501,10 +585,159 @@ def _run_history(case, prof, fresh, hist, is_rp, mech):
     # final: unnormalize and read everything
     if normalized:
         prof.unnormalize()
+        mutators.append(('unnormalize',))
+        epoch += 1
         normalized = False
+        N = 1.0
     check_arrays(arrays, 'after_unnormalize' if nnorm else 'never_normalized')
+    if is_cog:
+        st = stale('interp')
+        case.note('interpolator_steps')
+        if st:
+            case.note('interpolator_steps_after_normalisation_change')
+        _interp_step(case, prof, 'roundtrip', replica, dict(mech, stale_opportunity=st), P0)
+    if gauss_ok and 'fit' in frozen:
+        _gaussian_step(case, prof, 'gaussian_fit', replica, frozen, stale('gaussian'), mech)
     case.note('history_steps', len(hist))
     case.note('history_normalize_calls', nnorm)
+
+
+def _pchip(x, y):
+    from scipy.interpolate import PchipInterpolator
+    return PchipInterpolator(x, y, extrapolate=False)
+
+
+def _interp_step(case, cog, kind, replica, mech, p_model):
+    """One call of the encircled-energy interpolators on the live object, judged against
+    (a) the object's own *current* profile (trusted scipy PchipInterpolator built by the harness from it),
+    (b) a brand-new object brought to the same normalisation state, and the model P0/N where it is sharp."""
+    rng = case.rng
+    r = np.asarray(cog.radius, float)
+    p = _vals(cog.profile).astype(float)
+    if not np.all(np.isfinite(p)):
+        case.note('interp_step_skipped_nonfinite_profile')
+        return
+    if kind == 'roundtrip':
+        _roundtrip(case, cog, mech)
+        return
+    k = R.monotone_prefix(p)
+    if kind.startswith('ee'):
+        if kind == 'ee_nodes':
+            x = r.copy()
+        else:
+            x = np.concatenate([0.5 * (r[:-1] + r[1:]), rng.uniform(r[0], r[-1], 3),
+                                [r[0] * 0.5, r[-1] + 1.0]])       # the last two lie outside: NaN expected
+        obs = np.asarray(cog.calc_ee_at_radius(x), float)
+        m = dict(mech, op='calc_ee_at_radius', at=kind[3:])
+        if kind == 'ee_nodes':
+            case.close(obs, p, 'ee_at_sampled_radii_is_profile', rtol=1e-12, mech=m)
+        case.close(obs, np.asarray(_pchip(r, p)(x), float), 'ee_vs_interpolant_of_current_profile', rtol=1e-12,
+                   atol=1e-15 * float(np.max(np.abs(p))), mech=m)
+        if p_model is not None and np.all(np.isfinite(p_model)):
+            case.close(obs, np.asarray(_pchip(r, p_model)(x), float), 'ee_vs_interpolant_of_model_profile',
+                       rtol=1e-10, atol=1e-12 * float(np.max(np.abs(p_model))), mech=m)
+        if rng.random() < 0.5:
+            case.close(obs, np.asarray(replica().calc_ee_at_radius(x), float), 'derived_vs_fresh_in_same_state',
+                       rtol=1e-12, atol=1e-15 * float(np.max(np.abs(p))), mech=dict(m, array='calc_ee_at_radius'))
+        return
+    # inverse
+    m = dict(mech, op='calc_radius_at_ee', at=kind[4:])
+    if k < 2:
+        try:
+            cog.calc_radius_at_ee(p[:1])
+            case.check(False, 'radius_at_ee_rejects_non_monotone_start', m)
+        except ValueError:
+            case.check(True, 'radius_at_ee_rejects_non_monotone_start', m)
+        return
+    if kind == 'rad_nodes':
+        e = p[:k].copy()
+    else:
+        e = np.concatenate([0.5 * (p[:k - 1] + p[1:k]), rng.uniform(p[0], p[k - 1], 3),
+                            [p[0] - abs(p[0]) - 1.0, p[k - 1] + abs(p[k - 1]) + 1.0]])   # last two outside: NaN
+    try:
+        obs = np.asarray(cog.calc_radius_at_ee(e), float)
+    except ValueError as exc:
+        case.check(False, 'radius_at_ee_raised', dict(m, exc='ValueError',
+                                                      own_message='not monotonically increasing' in str(exc),
+                                                      monotone_points=min(k, 3)), msg=str(exc)[:160])
+        return
+    if kind == 'rad_nodes':
+        truncated = k < p.size
+        inner = slice(0, k - 1) if truncated else slice(0, k)
+        _close(case, obs[inner], r[:k][inner], 'radius_at_ee_roundtrip', atol=1e-9, rtol=1e-9,
+               mech=dict(m, where='interior', via='node_value'))
+        if truncated:
+            _close(case, obs[k - 1:k], r[k - 1:k], 'radius_at_ee_roundtrip', atol=1e-9, rtol=1e-9,
+                   mech=dict(m, where='last_monotone_point', via='node_value'))
+    case.close(obs, np.asarray(_pchip(p[:k], r[:k])(e), float), 'radius_vs_inverse_interpolant_of_current_profile',
+               rtol=1e-12, atol=1e-12, mech=m)
+    if rng.random() < 0.5:
+        case.close(obs, np.asarray(replica().calc_radius_at_ee(e), float), 'derived_vs_fresh_in_same_state',
+                   rtol=1e-12, atol=1e-12, mech=dict(m, array='calc_radius_at_ee'))
+
+
+def _gaussian_step(case, rp, name, replica, frozen, st, mech):
+    """gaussian_fit / gaussian_profile / gaussian_fwhm.  Documented: 'The Gaussian fit will not change if the
+    profile normalization is changed after performing the fit' -- the first fit is compared with a brand-new
+    object in the same normalisation state, every later read with that first fit."""
+    from astropy.stats import gaussian_sigma_to_fwhm
+    m = dict(mech, array=name, stale_opportunity=st)
+    case.note('gaussian_steps')
+    if st:
+        case.note('gaussian_steps_after_normalisation_change')
+    if 'fit' not in frozen:
+        try:
+            ref = replica().gaussian_fit
+            refpar = np.array(ref.parameters, float)
+        except Exception:  # noqa: BLE001  (fit not applicable to this profile: not part of the property)
+            case.note('gaussian_fit_not_applicable')
+            frozen['na'] = True
+            return
+        if not np.all(np.isfinite(refpar)):
+            case.note('gaussian_fit_not_applicable')
+            frozen['na'] = True
+            return
+    if frozen.get('na'):
+        return
+    val = getattr(rp, name)
+    fit = rp.gaussian_fit
+    par = np.array(fit.parameters, float)
+    if 'fit' not in frozen:
+        frozen['fit'] = par.copy()
+        case.close(par, refpar, 'derived_vs_fresh_in_same_state', rtol=1e-10, mech=dict(m, array='gaussian_fit'))
+    else:
+        case.close(par, frozen['fit'], 'gaussian_fit_frozen_after_first_read', mech=m)
+    radius = np.asarray(rp.radius, float)
+    if name == 'gaussian_profile':
+        # the fit object's parameters were just compared with the frozen ones; astropy evaluates the model
+        case.close(_vals(val), _vals(fit(radius)), 'gaussian_profile_is_frozen_fit_at_radius', mech=m)
+    elif name == 'gaussian_fwhm':
+        case.close(float(val), float(frozen['fit'][2] * gaussian_sigma_to_fwhm), 'gaussian_fwhm_is_frozen_fit_width',
+                   rtol=1e-14, mech=m)
+
+
+def _apertures_step(case, prof, radii, is_cog, mech):
+    """`apertures` describe the geometry only: same centres / radii in every normalisation state."""
+    aps = prof.apertures
+    ok = True
+    det = {}
+    if is_cog:
+        ok = len(aps) == radii.size
+        for ap, r in zip(aps, radii):
+            if ap is None:
+                ok = ok and r <= 0
+            else:
+                ok = ok and float(ap.r) == float(r)
+    else:
+        ok = len(aps) == radii.size - 1
+        for i, ap in enumerate(aps):
+            if hasattr(ap, 'r_in'):
+                ok = ok and float(ap.r_in) == float(radii[i]) and float(ap.r_out) == float(radii[i + 1])
+            else:
+                ok = ok and radii[i] <= 0 and float(ap.r) == float(radii[i + 1])
+    pos = [np.asarray(ap.positions, float).ravel() for ap in aps if ap is not None]
+    ok = ok and all(np.array_equal(q, np.asarray(prof.xycen, float)) for q in pos)
+    case.check(bool(ok), 'apertures_geometry', mech, **det)
 
 
 def _roundtrip(case, cog, mech):
@@ -514,12 +747,6 @@ def _roundtrip(case, cog, mech):
     if not np.all(np.isfinite(p)):
         case.note('roundtrip_skipped_nonfinite_profile')
         return
-    # optionally in a normalised state (the docstrings recommend normalising first)
-    if case.rng.random() < 0.5:
-        mx = np.max(p)
-        if mx > 0:
-            cog.normalize()
-            p = _vals(cog.profile).astype(float)
     k = R.monotone_prefix(p)
     n = p.size
     m = dict(mech, op='calc_radius_at_ee')
